@@ -293,6 +293,13 @@ func genWorld(r *simkit.RNG, sc *Scenario, k *gknobs) {
 		}
 		sc.Pkgs = append(sc.Pkgs, p)
 	}
+	if er := simkit.NewRNG(sc.Seed, "bw/escape-twins"); len(sc.Pkgs) >= 2 && er.Chance(1, 10) {
+		// two packages whose addresses differ only in how one path character is spelled
+		// (percent-escaped or not): distinct packages as far as the library is concerned
+		sc.Pkgs[0].Base, sc.Pkgs[0].Query = "https://example.com/dl/mod-v1.tgz", ""
+		sc.Pkgs[len(sc.Pkgs)-1].Base, sc.Pkgs[len(sc.Pkgs)-1].Query = "https://example.com/dl/mod%2Dv1.tgz", ""
+		sc.Pkgs[0].Commit, sc.Pkgs[len(sc.Pkgs)-1].Commit = "", ""
+	}
 	// registry packages
 	for i := 0; i < k.maxRegs; i++ {
 		host := simkit.Pick(r, []string{"example.com", "registry.terraform.io", "reg.example.org"})
